@@ -227,34 +227,39 @@ worker_main(void *arg)
 int
 main(int argc, char *argv[])
 {
-	struct worker W[2];
+	struct worker W[3];
 	memset(W, 0, sizeof(W));
-	/* thread A is the main thread itself, thread B a worker */
-	for (int i = 0; i < 2; i++) {
-		W[i].tid = 101 + i;
+	/* thread A is the main thread itself, B and C are workers; C traces under A's tid (a thread id used again after
+	 * its first owner ended, as the kernel does) */
+	for (int i = 0; i < 3; i++) {
+		W[i].tid = i == 2 ? 101 : 101 + i;
 		sem_init(&W[i].go, 0, 0);
 		sem_init(&W[i].done, 0, 0);
 	}
-	pthread_create(&W[1].th, NULL, worker_main, &W[1]);
-	sem_wait(&W[1].done); /* the worker finished its warm-up before the runtime phase starts */
+	for (int i = 1; i < 3; i++) {
+		pthread_create(&W[i].th, NULL, worker_main, &W[i]);
+		sem_wait(&W[i].done); /* the worker is parked before the runtime phase starts */
+	}
 	/* sentinel: everything after this syscall belongs to the runtime phase */
 	if (write(-1, "VERIF-START", 11) < 0) {}
 	for (int a = 1; a < argc; a++) {
 		const char *op = argv[a];
 		if (strlen(op) < 3 || op[1] != ':')
 			continue;
-		if (op[0] != 'B') {
+		if (op[0] != 'B' && op[0] != 'C') {
 			do_op(&W[0], op + 2);
 			continue;
 		}
-		struct worker *w = &W[1];
+		struct worker *w = &W[op[0] == 'B' ? 1 : 2];
 		w->op = op + 2;
 		sem_post(&w->go);
 		sem_wait(&w->done);
 	}
 	if (write(-1, "VERIF-END", 9) < 0) {}
-	W[1].quit = 1;
-	sem_post(&W[1].go);
-	pthread_join(W[1].th, NULL);
+	for (int i = 1; i < 3; i++) {
+		W[i].quit = 1;
+		sem_post(&W[i].go);
+		pthread_join(W[i].th, NULL);
+	}
 	return 0;
 }
